@@ -35,8 +35,12 @@ TEMPLATES = {
     "two_mode_chain": ["BSgate({t}, 0.5) | [0, 1]", "BSgate(0.25, {u}) | [1, 2]", "BSgate({t}/2, {u}*4) | [2, 3]", "Rgate(-{u}+1) | 0"],
     "kwargs_present": ["Dgate({a}, 0.5) | 0", "MeasureHomodyne(phi=0.25) | 0", "Sgate(8*{a}-2) | 1"],
     "five_ops": ["Ag({a}) | 0", "Bg({b}) | 1", "Cg({a}+0.5, {b}-0.5) | [0, 1]", "Dg(4*{b}) | 2", "Eg(-{a}/8) | [2, 0]"],
+    "scale_only": ["Dgate(2*{a}, 0.5) | 0", "Sgate(-{b}/4) | 1", "Rgate(3*{a}, {b}) | 2", "Zgate({a}*0.125) | 3"],
     "offset_only_and_scale_only": ["Dgate({p}+1.5) | 0", "Dgate(4*{q}) | 1", "Dgate({p}-0.25, {q}/2) | 2"],
 }
+# templates whose arguments have no additive constant: a parameter value of any magnitude is recovered without cancellation
+# (with an offset, `2*r+1` at r = 1e-7 loses nine digits in the program itself: such values are not 'generic')
+NO_OFFSET = ["const_mix", "two_mode_bridge", "single", "with_target", "scale_only"]
 HEADERS = {"with_target": "name t\nversion 1.0\ntarget X8 (shots=10)\n\n"}
 
 
@@ -211,6 +215,27 @@ def run_spec(name):
             rr["symbolic_what"] = "native run fails although the symbolic run holds (encoder gap)"
             out.update(result="violation", cex=rr)
             return out
+    # ordinary decimal values (floats are reals in the symbolic run: a recovered value and a directly read value of the same
+    # parameter differ by rounding in the real code)
+    import random
+    rnd = random.Random(len(name) * 7919 + common.seed())
+    for _ in range(12 if common.tier() == "quick" else 80):
+        vals = [round(rnd.uniform(-3, 3), rnd.choice((1, 2, 3, 6))) or 0.5 for _ in names]
+        rr = concrete_check(name, list(perms[rnd.randrange(len(perms))]), vals)
+        out["validated"] = out.get("validated", 0) + 1
+        if isinstance(rr, dict):
+            rr["symbolic_what"] = "native run on ordinary decimal parameter values: " + rr["what"]
+            out.update(result="violation", cex=rr)
+            return out
+    if name in NO_OFFSET:
+        for vals in ([3.3e-13 * (k + 1) for k in range(len(names))], [-7.25e-15 * (k + 2) for k in range(len(names))], [1.5e17 * (k + 1) for k in range(len(names))],
+                     [(1e-7 if k % 2 else 2.5e9) * (k + 1) for k in range(len(names))]):
+            rr = concrete_check(name, list(perms[0]), vals)
+            out["validated"] = out.get("validated", 0) + 1
+            if isinstance(rr, dict):
+                rr["symbolic_what"] = "native run on very small / very large parameter values: " + rr["what"]
+                out.update(result="violation", cex=rr)
+                return out
     rr = rematch_check(name, v, [-1.25 + 0.5 * k for k in range(len(names))])
     out["validated"] = out.get("validated", 0) + 1
     if isinstance(rr, dict):
@@ -405,7 +430,9 @@ def main():
                   "histories": "match / change the arguments of the same object (symbolic second values) / match again; structural edits on fresh copies, on copies taken after a match, on matched copies",
                   "API route": "the instance also as a new program object assembled by hand from the same operations"}
     rep.assumptions = [
-        "real-number model: floats are reals, so an inconsistency between a directly read value and a value recovered through solve() is invisible (stated gap)",
+        "real-number model: floats are reals, so an inconsistency between a directly read value and a value recovered through solve() is invisible to the solver; "
+        "native runs on ordinary decimal values (every template) and on very small / very large values (templates without additive constants) cover the float side",
+        "parameter values for which an additive constant dominates the parameter term by many orders of magnitude (2*r+1 at r = 3e-13) are not 'generic': the program itself has lost the digits",
         "SymPy boundary: program arguments enter SymPy as stand-in symbols (proxies' reflected operators); utils.float maps solved expressions back to z3 terms",
         "networkx DiGraphMatcher and sympy.solve are trusted",
         "structural-edit rejection is checked on concrete instances (no solver)",
